@@ -32,8 +32,12 @@ use core::cell::UnsafeCell;
 use core::fmt;
 use core::ops::{Deref, DerefMut};
 use core::ptr::NonNull;
+#[cfg(tiny_std_verif)]
+use crate::verif::{futex_wake, AtomicU32};
+#[cfg(not(tiny_std_verif))]
 use core::sync::atomic::AtomicU32;
 use core::sync::atomic::Ordering::{Acquire, Relaxed, Release};
+#[cfg(not(tiny_std_verif))]
 use rusl::futex::futex_wake;
 
 pub struct RwLock<T: ?Sized> {
